@@ -88,8 +88,13 @@ type Plan struct {
 	PreFilter      bool // OpenStream with /Filter already in the dictionary and filters given
 	Invalid        bool // one operation the Writer must refuse
 	ZeroCompressed bool // WriteCompressed without objects
+	Batch          int  // size of the next WriteCompressed batch (0: small, occasionally medium)
 	MaxOps         int
 }
+
+// BatchSizes are the sizes of WriteCompressed batches that get explored beyond the small ones:
+// around powers of two and around 100, a multiple of nothing, and a large one.
+var BatchSizes = []int{31, 32, 33, 99, 100, 101, 150, 255, 256, 257, 1000}
 
 type Want struct {
 	Obj      pdf.Object // normalised snapshot of what was written (streams: the user's dictionary)
@@ -586,6 +591,12 @@ func (x *runner) stream(plan *Plan) bool {
 
 func (x *runner) compressed(plan *Plan) bool {
 	k := 1 + x.r.IntN(3)
+	if plan.Batch > 0 {
+		k = plan.Batch
+		plan.Batch = 0
+	} else if x.r.IntN(40) == 0 {
+		k = BatchSizes[x.r.IntN(len(BatchSizes)-1)] // medium sizes at random; 1000 only when planned
+	}
 	if plan.ZeroCompressed {
 		plan.ZeroCompressed = false
 		k = 0
@@ -598,6 +609,17 @@ func (x *runner) compressed(plan *Plan) bool {
 			return false
 		}
 		o := x.genValue()
+		if k > 8 {
+			// many small, distinguishable values
+			switch j % 3 {
+			case 0:
+				o = pdf.Integer(j)
+			case 1:
+				o = pdf.String(fmt.Sprintf("s%d)", j))
+			default:
+				o = pdf.Array{pdf.Name(fmt.Sprintf("N%d", j)), pdf.Integer(-j)}
+			}
+		}
 		if _, isRef := o.(pdf.Reference); isRef {
 			o = pdf.Integer(7)
 		}
@@ -698,6 +720,16 @@ func Run(r *rand.Rand, cfg Config, plan Plan) *Result {
 		res.UserRefs = append(res.UserRefs, ref)
 		alive = x.put(ref, GenObj(r, 0, nil))
 		if alive && plan.SparseHigh {
+			alive = x.compressed(&plan)
+			if alive && r.IntN(2) == 0 {
+				alive = x.compressed(&plan)
+			}
+		}
+	}
+	if alive && plan.Batch > 0 {
+		// the planned batch, and a second WriteCompressed in the same file
+		alive = x.compressed(&plan)
+		if alive {
 			alive = x.compressed(&plan)
 		}
 	}
